@@ -73,6 +73,8 @@ EXTRA = {
     "pow3": lambda a, b, c: pow(a, b, c),
     "sum": lambda a: sum(a),
     "sorted": lambda a: sorted(a),
+    "dict_lookup": lambda a, b: {b: 1}[a],          # hashing + equality: the proxy finds its value's entry
+    "set_member": lambda a, b: a in {b},
 }
 
 
@@ -99,6 +101,9 @@ def build_classes(specs):
         def method(self, other):
             for match, beh in rules:
                 if match == "*" or isinstance(other, env[match]):
+                    if beh[0] == "peer":
+                        # the way a student's Card compares / adds: by a field of BOTH operands (duck typing)
+                        return getattr(self, beh[1]) == getattr(other, beh[1])
                     return act(beh, cname, dunder)
             return NotImplemented
         method.__name__ = dunder
@@ -127,7 +132,7 @@ def build_classes(specs):
 
     for spec in specs:
         ns = {"__init__": lambda self, payload=0: setattr(self, "payload", payload),
-              "__repr__": (lambda n: lambda self: "%s(%r)" % (n, self.payload))(spec["name"])}
+              "__repr__": (lambda n: lambda self: "%s(%r)" % (n, _payload_of(self)))(spec["name"])}
         for dunder, rules in spec.get("dunders", {}).items():
             ns[dunder] = make_binary(spec["name"], dunder, [(r[0], r[1:]) for r in rules])
         for dunder, beh in spec.get("conv", {}).items():
@@ -136,13 +141,157 @@ def build_classes(specs):
             else:
                 ns[dunder] = make_unary(spec["name"], dunder, beh)
         base = env[spec["base"]] if spec.get("base") else object
-        env[spec["name"]] = type(spec["name"], (base,), ns)
+        if any(k in spec for k in ("shape", "attrs", "catch", "klass")):
+            env[spec["name"]] = build_carrier(spec, ns, base, env)
+        else:
+            env[spec["name"]] = type(spec["name"], (base,), ns)
     return env
+
+
+# --------------------------------------------------------------------------
+# student classes whose instances carry attributes named like the proxy's own vocabulary ("carriers")
+#   spec["attrs"]  [[name, how, expr], ...]   how: inst | cls | prop | meth      expr: a literal, or "@self"
+#   spec["shape"]  object | slots | enum | intenum | strenum | namedtuple | dataclass | attrdict
+#   spec["catch"]  {"kind": getattr | getattribute, "scope": all | public, "answer": zero|none|str|list|self|name,
+#                   "miss": attr | key}    a class answering (almost) every attribute name
+#   spec["klass"]  name of the class its instances claim as __class__
+
+def _payload_of(obj):
+    try:
+        return object.__getattribute__(obj, "payload")
+    except AttributeError:
+        if isinstance(obj, dict):
+            return dict.get(obj, "payload", "?")
+        try:
+            p = obj.payload
+        except Exception:       # noqa
+            return "?"
+        return "self" if p is obj else p
+
+
+def _decoy(expr, self):
+    if expr == "@self":
+        return self
+    return eval(expr, {"__builtins__": {}}, {"set": set, "frozenset": frozenset})
+
+
+def _catch_all(catch, kind_getattribute):
+    answers = {"zero": lambda s, n: 0, "none": lambda s, n: None, "str": lambda s, n: "attr", "list": lambda s, n: [1, 2],
+               "self": lambda s, n: s, "name": lambda s, n: n}
+    answer = answers[catch["answer"]]
+    miss = KeyError if catch.get("miss") == "key" else AttributeError
+
+    def getattr_(self, name):
+        if catch["scope"] == "public" and name.startswith("_"):
+            raise miss(name)
+        if name.startswith("__") and name.endswith("__") and catch["scope"] != "all":
+            raise miss(name)
+        return answer(self, name)
+
+    def getattribute_(self, name):
+        # protocol names (dunders) and the generated payload are answered normally: a class that lies about
+        # __class__ / __dict__ is a different experiment (spec["klass"])
+        if (name.startswith("__") and name.endswith("__")) or name == "payload":
+            return object.__getattribute__(self, name)
+        if catch["scope"] == "public" and name.startswith("_"):
+            return object.__getattribute__(self, name)
+        return answer(self, name)
+    return getattribute_ if kind_getattribute else getattr_
+
+
+def build_carrier(spec, ns, base, env):
+    import collections
+    import dataclasses
+    import enum
+    name, shape = spec["name"], spec.get("shape", "object")
+    attrs = [tuple(a) for a in spec.get("attrs", [])]
+    inst = [(n, e) for n, how, e in attrs if how == "inst"]
+    for n, how, e in attrs:
+        if how == "cls" and shape not in ("enum", "intenum", "strenum"):
+            ns[n] = _decoy(e, None) if e != "@self" else None
+        elif how == "prop" or (how == "cls" and shape in ("enum", "intenum", "strenum")):
+            ns[n] = property((lambda ex: lambda self: _decoy(ex, self))(e))
+        elif how == "meth":
+            ns[n] = (lambda ex: lambda self, *a: _decoy(ex, self))(e)
+    if spec.get("klass"):
+        ns["__class__"] = property((lambda k: lambda self: env[k])(spec["klass"]))
+    catch = spec.get("catch")
+    if catch:
+        ns["__getattribute__" if catch["kind"] == "getattribute" else "__getattr__"] = \
+            _catch_all(catch, catch["kind"] == "getattribute")
+    if shape in ("object", "slots"):
+        def init(self, payload=0):
+            object.__setattr__(self, "payload", payload)
+            for n, e in inst:
+                object.__setattr__(self, n, _decoy(e, self))
+        ns["__init__"] = init
+        if shape == "slots":
+            ns["__slots__"] = tuple(["payload"] + [n for n, _ in inst])
+            for n, _ in inst:
+                ns.pop(n, None)
+        return type(name, (base,), ns)
+    if shape in ("enum", "intenum", "strenum"):
+        ns.pop("__init__")
+        bases = {"enum": (enum.Enum,), "intenum": (enum.IntEnum,), "strenum": (str, enum.Enum)}[shape]
+        body = enum.EnumMeta.__prepare__(name, bases)
+        for k, v in ns.items():
+            body[k] = v
+        body["payload"] = property(lambda self: self._value_ if shape != "strenum" else int(self._value_[1:]))
+        for i in range(6):
+            body["M%d" % i] = i if shape != "strenum" else "m%d" % i
+        cls = enum.EnumMeta(name, bases, body)
+        env.setdefault("__make__", {})[name] = (lambda c: lambda p: c._member_map_["M%d" % p])(cls)
+        return cls
+    if shape == "namedtuple":
+        ns.pop("__init__")
+        fields = ["payload"] + [n for n, _ in inst if not n.startswith("_")]
+        for n, e in inst:
+            if n.startswith("_"):           # not a legal field name: a class attribute instead
+                ns[n] = _decoy(e, None) if e != "@self" else None
+        tup = collections.namedtuple(name + "Fields", fields,
+                                     defaults=[_decoy(e, None) if e != "@self" else None
+                                               for n, e in inst if not n.startswith("_")])
+        for f in fields:
+            ns.pop(f, None)
+        ns["__slots__"] = ()
+        return type(name, (tup,) if base is object else (tup, base), ns)
+    if shape == "dataclass":
+        ns.pop("__init__")
+        fields = [("payload", int, dataclasses.field(default=0))]
+        for n, e in inst:
+            ns.pop(n, None)
+            fields.append((n, object, dataclasses.field(
+                default_factory=(lambda ex: lambda: _decoy(ex, None) if ex != "@self" else None)(e))))
+        opts = spec.get("dc", {})
+        return dataclasses.make_dataclass(name, fields, bases=(base,), namespace=ns,
+                                          frozen=bool(opts.get("frozen")), order=bool(opts.get("order")))
+    if shape == "attrdict":
+        miss = KeyError if (catch or {}).get("miss", spec.get("miss")) == "key" else AttributeError
+
+        def init(self, payload=0):
+            dict.__init__(self, payload=payload)
+            for n, e in inst:
+                self[n] = _decoy(e, self)
+
+        fallback = ns.get("__getattr__")
+
+        def getattr_(self, key):
+            try:
+                return self[key]
+            except KeyError:
+                if fallback is not None:
+                    return fallback(self, key)
+                raise miss(key)
+        ns["__init__"] = init
+        ns["__getattr__"] = getattr_
+        return type(name, (dict,) if base is object else (base, dict), ns)
+    raise ValueError(shape)
 
 
 def build_value(vs, env):
     if vs["kind"] == "user":
-        return env[vs["cls"]](vs.get("payload", 0))
+        make = env.get("__make__", {}).get(vs["cls"]) or env[vs["cls"]]
+        return make(vs.get("payload", 0))
     return eval(vs["expr"], {"__builtins__": {}}, {"set": set, "frozenset": frozenset})
 
 
@@ -230,6 +379,244 @@ def gen_conv_beh(rng, dunder):
     if r < 0.9:
         return ["ni"]
     return ["raise", rng.choice(sorted(EXC))]
+
+
+# --- generators for carriers ------------------------------------------------------------------------------
+
+DECOYS = ["0", "5", "-1", "2.5", "''", "'v'", "[1, 2]", "[]", "None", "(3,)", "{1: 2}", "True", "False", "@self"]
+SHAPES = ["object", "slots", "namedtuple", "dataclass", "attrdict", "enum", "intenum", "strenum"]
+HOWS = ["inst", "cls", "prop", "meth"]
+SUNDER_RESERVED = lambda n: n.startswith("_") and n.endswith("_") and not n.startswith("__")      # noqa: E731
+
+
+def vocabulary():
+    from proxy_probe import proxy_vocabulary
+    return proxy_vocabulary()
+
+
+def legal_attr(shape, how, name):
+    """Can a class of this shape carry `name` in this way?"""
+    if shape in ("enum", "intenum", "strenum"):
+        if how == "inst" or SUNDER_RESERVED(name) or name in ("mro", "payload") or (name.startswith("__") and name.endswith("__")):
+            return False
+    if shape == "slots" and how == "inst" and name.startswith("__") and not name.endswith("__"):
+        return False            # name mangling inside __slots__
+    if name == "payload":
+        return False
+    return True
+
+
+def rich_conv(rng, spec, p=0.6):
+    """Give a generated class a good share of well-behaved conversion / container dunders (so that most of the
+    operation battery SUCCEEDS on the real object and has to give the same answer through the proxy)."""
+    for d, goods in GOOD_CONV.items():
+        if d not in spec["conv"] and rng.random() < p:
+            spec["conv"][d] = ["lit", repr(rng.choice(goods))]
+    if "__iter__" not in spec["conv"] and rng.random() < p:
+        spec["conv"]["__iter__"] = ["iter", [1, 2]]
+    if "__eq__" not in spec["dunders"] and rng.random() < 0.3:
+        # compares by class and payload, the way a student's Card does
+        spec["dunders"]["__eq__"] = [[spec["name"], "val", True], ["*", "val", False]]
+        spec["conv"].setdefault("__hash__", ["lit", "12345"])
+
+
+def carrier_spec(rng, name, names, shape=None, how=None, catch=None, klass=None, base=None, peer=None):
+    """One generated class carrying attributes called `names` (spelled `how`, or each at random)."""
+    one = gen_classes(rng)[0]
+    spec = {"name": name, "base": base, "dunders": one["dunders"], "conv": one["conv"], "shape": shape or "object"}
+    for d in list(spec["dunders"]):         # rules naming classes that may not exist
+        spec["dunders"][d] = [r for r in spec["dunders"][d] if r[0] in ("*", "int", "str", "list", "float", name)]
+    rich_conv(rng, spec)
+    attrs = []
+    for n in names:
+        h = how or rng.choice(HOWS)
+        if not legal_attr(spec["shape"], h, n):
+            h = next((x for x in ("prop", "meth", "cls") if legal_attr(spec["shape"], x, n)), None)
+            if h is None:
+                continue
+        attrs.append([n, h, rng.choice(DECOYS)])
+    spec["attrs"] = attrs
+    peers = [a[0] for a in attrs if a[1] != "meth"] + (["value"] if spec["shape"] in ("enum", "intenum", "strenum") else [])
+    if peers and peer is not False and (peer or rng.random() < 0.4):
+        # some dunders read that attribute from the OTHER operand as well (Card.__eq__: self.value == other.value)
+        for d in ["__eq__"] + rng.sample(ARITH_NAMES + CMP_NAMES + ["__radd__", "__rmul__"], 2):
+            spec["dunders"][d] = [[name, "peer", rng.choice(peers)]] + [r for r in spec["dunders"].get(d, []) if r[0] != name]
+        spec["conv"].setdefault("__hash__", ["lit", "12345"])
+    if spec["shape"] == "dataclass":
+        spec["dc"] = {"frozen": rng.random() < 0.3, "order": False}
+        for d in ("__setattr__", "__delattr__"):
+            spec["conv"].pop(d, None)
+    if spec["shape"] == "attrdict":
+        spec["miss"] = rng.choice(["attr", "key"])
+    builtin_base = {"intenum": int, "strenum": str, "namedtuple": tuple, "attrdict": dict}.get(spec["shape"])
+    if builtin_base is not None:
+        # a subclass of a builtin keeps the builtin's own comparisons (a generated __gt__ that contradicts the
+        # inherited C-level __lt__ only exercises the mirrored-comparison side condition, not this dimension) ...
+        for d in [d for d in spec["dunders"] if d in CMP_NAMES and d in vars(builtin_base)]:
+            del spec["dunders"][d]
+    if builtin_base in (int, str):
+        # ... and an int / str subclass the builtin's own conversions (CPython short-cuts exact-type checks such as
+        # PyLong_Check before it looks at an overriding __index__: a dimension of its own, see notes/C16.md section 7)
+        for d in [d for d in spec["conv"] if hasattr(builtin_base, d)]:
+            del spec["conv"][d]
+    if catch and spec["shape"] not in ("enum", "intenum", "strenum", "namedtuple", "dataclass"):
+        spec["catch"] = catch       # (the enum / dataclass machinery itself probes attributes while the class is made)
+    if klass:
+        spec["klass"] = klass
+    return spec
+
+
+def answers_private(spec):
+    """Does an instance of this class ANSWER (return something for) the proxy's reserved underscore names?  Such an
+    object is, by the proxy's duck-typed design, not distinguishable from a proxy when it is a PLAIN operand."""
+    if any(a[0].startswith("_") for a in spec.get("attrs", [])):
+        return True
+    c = spec.get("catch")
+    if c and c["scope"] != "public":
+        return True
+    return False
+
+
+def plain_safe(spec, rng=None):
+    """The variant of a carrier class that may stand as a plain (unproxied) other operand: public colliding names only,
+    a catch-all that does not answer underscore names (it raises AttributeError - or, like the dict.__getitem__ idiom,
+    KeyError - for them)."""
+    s2 = json.loads(json.dumps(spec))
+    s2["attrs"] = [a for a in s2.get("attrs", []) if not a[0].startswith("_")]
+    if s2.get("catch"):
+        s2["catch"]["scope"] = "public"
+    return s2
+
+
+def collide_battery(rng, specs, subject, others, per_family):
+    """The operation battery on proxies of `subject` (a value spec of a carrier class)."""
+    out = []
+    vals = value_specs()
+
+    def pick_other():
+        r = rng.random()
+        if r < 0.5 and others:
+            return rng.choice(others)
+        if r < 0.7:
+            return dict(subject, payload=rng.choice([0, 1, 2]))
+        return rng.choice(vals)
+    by_name = {s["name"]: s for s in specs}
+
+    def ok_plain(v):
+        return v["kind"] != "user" or not answers_private(by_name[v["cls"]])
+    convs = list(CONV)
+    for op in (convs if per_family is None else rng.sample(convs, min(per_family, len(convs)))):
+        out.append({"family": _fam(op), "op": op, "left": subject, "classes": specs})
+    binops = ARITH_NAMES + CMP_NAMES
+    defined = [d for d in by_name[subject["cls"]]["dunders"]]
+    chosen = list(CMP_NAMES) + [f for f, rd, _ in ARITH if f in defined or rd in defined] + rng.sample(ARITH_NAMES, 3)
+    if per_family is not None:
+        chosen = rng.sample(chosen, min(per_family, len(chosen)))
+    for op in chosen:
+        for plc in (PLACEMENTS if per_family is None else [rng.choice(PLACEMENTS)]):
+            o = pick_other()
+            l, r = (subject, o) if plc != "proxy-right" else (o, subject)
+            if rng.random() < 0.25 and plc == "both":
+                l, r = r, l
+            # the side that stays plain must be a legitimate plain operand
+            plain = r if plc == "proxy-left" else (l if plc == "proxy-right" else None)
+            if plain is not None and not ok_plain(plain):
+                continue
+            if op == "__mod__" and (l["kind"] == "str" or (l["kind"] == "user" and by_name[l["cls"]].get("shape") == "strenum")):
+                continue        # str % proxy: the open finding, exercised by the builtin cells
+            out.append({"family": _fam(op), "op": op, "left": l, "right": r, "placement": plc, "classes": specs})
+    for op in CONTAINER2:
+        for k in ([{"kind": "int", "expr": "0"}, {"kind": "str", "expr": "'payload'"}, pick_other()]):
+            if ok_plain(k):
+                out.append({"family": "container", "op": op, "left": subject, "right": k, "classes": specs})
+    # a plain carrier as the needle / key of a proxied builtin container
+    for cont in ("[1, 2]", "{1: 2}", "(3,)"):
+        if ok_plain(subject):
+            out.append({"family": "container", "op": "contains", "left": {"kind": "list", "expr": cont},
+                        "right": subject, "classes": specs})
+    for c in [subject["cls"], "object", "int", "tuple", "dict", "str"]:
+        out.append({"family": "isinstance", "op": "isinstance", "left": subject, "cls": c, "classes": specs})
+    ex = [("fstring", [subject]), ("sum", [subject]), ("sorted", [subject]), ("dict_lookup", [subject, subject]),
+          ("set_member", [subject, subject]),
+          ("round_n", [subject, {"kind": "int", "expr": "1"}]), ("format_spec", [subject, {"kind": "str", "expr": "'>5'"}]),
+          ("pow3", [subject, {"kind": "int", "expr": "2"}, {"kind": "int", "expr": "5"}])]
+    sspec = by_name[subject["cls"]]
+    if sspec.get("shape") in ("enum", "intenum", "strenum") and "__eq__" in sspec["dunders"]:
+        # members are singletons: CPython's lookup finds the key by IDENTITY before it asks a (generated, possibly
+        # irreflexive) __eq__ - no proxy can be identical to its value
+        ex = [e for e in ex if e[0] not in ("dict_lookup", "set_member")]
+    for op, args in (ex if per_family is None else rng.sample(ex, min(per_family, len(ex)))):
+        out.append({"family": "extra", "op": op, "args": args, "proxied": [0], "classes": specs})
+    out.append({"family": "len_fn", "op": "len_fn", "left": subject, "placement": "proxy", "classes": specs})
+    if ok_plain(subject):
+        out.append({"family": "len_fn", "op": "len_fn", "left": subject, "placement": "raw", "classes": specs})
+    return out
+
+
+def _fam(op):
+    if op in ARITH_NAMES:
+        return "binary"
+    if op in CMP_NAMES:
+        return "comparison"
+    if op in UNARY_NAMES:
+        return "unary"
+    if op in CONTAINER_CONV or op in CONTAINER2:
+        return "container"
+    return "conversion"
+
+
+CATCHES = [{"kind": k, "scope": sc, "answer": a, "miss": m}
+           for k in ("getattr", "getattribute") for sc in ("all", "nodunder", "public")
+           for a in ("zero", "none", "str", "list", "self", "name") for m in ("attr", "key")
+           if not (k == "getattribute" and (sc == "all" or m == "key"))]
+
+
+def collide_cases(rng, tier, budget=None):
+    """Student values whose attribute names collide with the proxy's own vocabulary, under the whole battery.
+    Systematic part: every tier-1 name x every way of carrying it (full battery for the public names, a sampled
+    battery for the others), every variant / tier-2 name once; every catch-all; __class__ overrides; then random
+    mixtures."""
+    voc = vocabulary()
+    out = []
+    plainB = {"name": "B", "base": None, "dunders": {}, "conv": {}}
+
+    def one(names, shape=None, how=None, catch=None, klass=None, full=False):
+        a = carrier_spec(rng, "A", names, shape=shape, how=how, catch=catch, klass=klass)
+        b = carrier_spec(rng, "B", [n for n in names if not n.startswith("_")][:2], shape=rng.choice(SHAPES[:4]))
+        specs = [a, plain_safe(b)]
+        subject = {"kind": "user", "cls": "A", "payload": rng.choice([0, 1, 2])}
+        others = [{"kind": "user", "cls": "B", "payload": 1}]
+        return collide_battery(rng, specs, subject, others, None if full else (4 if tier == "quick" else 10))
+    thorough = tier != "quick"
+    for n in voc["tier1"]:
+        public = not n.startswith("_")
+        for shape in SHAPES:
+            for how in HOWS:
+                if shape in ("namedtuple", "dataclass", "attrdict", "slots") and how != "inst" and not thorough:
+                    continue
+                if not legal_attr(shape, how, n):
+                    continue
+                out += one([n], shape=shape, how=how, full=public or thorough)
+    # the enum shapes carry `value` / `name` (and _value_ / _name_) by themselves
+    for shape in ("enum", "intenum", "strenum"):
+        out += one([], shape=shape, full=True)
+    for n in voc["variants"] + voc["tier2"]:
+        for _ in range(3 if thorough else 1):
+            out += one([n], shape=rng.choice(SHAPES))
+    for c in CATCHES:
+        out += one([], catch=c, shape=rng.choice(["object", "object", "attrdict"]) if c["kind"] == "getattr" else "object",
+                   full=thorough or c["answer"] in ("zero", "self"))
+    for k in ("int", "str", "object", "B", "list"):
+        out += one(rng.sample(voc["tier1"], 1), klass=k, full=True)
+    everything = voc["tier1"] + voc["variants"] + voc["tier2"]
+    for _ in range(budget if budget is not None else (40 if tier == "quick" else 1500)):
+        names = rng.sample(everything, rng.randint(1, 4))
+        if rng.random() < 0.5:
+            names.append(rng.choice([n for n in voc["tier1"] if not n.startswith("_")] or voc["tier1"]))
+        out += one(sorted(set(names)), shape=rng.choice(SHAPES),
+                   catch=rng.choice(CATCHES) if rng.random() < 0.15 else None,
+                   klass=rng.choice(["int", "B", "object"]) if rng.random() < 0.05 else None)
+    return out
 
 
 # `iter` behaviour needs a real iterator
@@ -420,8 +807,121 @@ def kind_of(vs, case=None):
     return "user"
 
 
+def plain_operands(case):
+    fam = case["family"]
+    if fam in ("binary", "comparison"):
+        return {"proxy-left": [case["right"]], "proxy-right": [case["left"]]}.get(case["placement"], [])
+    if fam == "container" and "right" in case:
+        return [case["right"]]
+    if fam == "extra":
+        return [a for i, a in enumerate(case["args"]) if i not in case["proxied"]]
+    if fam == "len_fn" and case["placement"] == "raw":
+        return [case["left"]]
+    return []
+
+
+_SHADOWED = None
+
+
+def shadowed_names():
+    """Attribute names for which `proxy.<name>` does NOT give (a proxy of) the wrapped object's own attribute of that
+    name - measured on the tree under test."""
+    global _SHADOWED
+    if _SHADOWED is None:
+        voc = vocabulary()
+        out = set()
+        for n in voc["tier1"] + voc["tier2"] + voc["variants"]:
+            class Holder:
+                pass
+            sentinel = object()
+            h = Holder()
+            try:
+                object.__setattr__(h, n, sentinel)
+                if unwrap(getattr(SandboxResult(h), n)) is not sentinel:
+                    out.add(n)
+            except Exception:       # noqa
+                out.add(n)
+        _SHADOWED = out
+    return _SHADOWED
+
+
+def peer_reads(spec):
+    """attribute names a class's dunders read from the OTHER operand"""
+    names = {r[2] for rules in spec.get("dunders", {}).values() for r in rules if len(r) > 2 and r[1] == "peer"}
+    if spec.get("shape") == "dataclass":        # the generated __eq__ compares the fields of both operands
+        names |= {a[0] for a in spec.get("attrs", []) if a[1] == "inst"}
+    return names
+
+
+def proxied_operands(case):
+    fam = case["family"]
+    if fam in ("binary", "comparison"):
+        return {"proxy-left": [case["left"]], "proxy-right": [case["right"]],
+                "both": [case["left"], case["right"]]}[case["placement"]]
+    if fam == "extra":
+        return [a for i, a in enumerate(case["args"]) if i in case["proxied"]]
+    if fam == "len_fn" and case["placement"] == "raw":
+        return []
+    return [case["left"]]
+
+
+def structural_cause(case):
+    """Narrow structural conditions under which a deviation has a cause of its own (each is one open finding, not a
+    cell of the operator table):
+      plain-operand-getattr-raises  a PLAIN operand whose class's __getattr__ raises something other than AttributeError
+                                    for the proxy's reserved names (class AttrDict(dict): __getattr__ = dict.__getitem__)
+      student-dunder-reads-shadowed-attribute   a PLAIN operand whose own (Python-level) dunder reads, from the proxied
+                                    other operand, a public attribute the proxy keeps for itself (`value`):
+                                    Card(3) == proxy(Card(3)) evaluates 3 == <the Card> inside Card.__eq__
+      student-dunder-reads-dynamic-attribute    the same, for an attribute the proxied object's class provides through
+                                    its own __getattr__ / __getattribute__ (the proxy forwards with
+                                    object.__getattribute__, which skips them)
+      value-overrides-__class__     a PROXIED value whose class answers __class__ with another class: isinstance()
+                                    (also inside student dunders) sees only the claimed class, not the real one"""
+    if not any(("catch" in s or s.get("shape") == "attrdict" or s.get("klass") or peer_reads(s))
+               for s in case.get("classes", [])):
+        return None
+    env = build_classes(case["classes"])
+    by_name = {s["name"]: s for s in case["classes"]}
+    plain = plain_operands(case)
+    proxied = proxied_operands(case)
+    for v in proxied:
+        if v["kind"] == "user" and by_name[v["cls"]].get("klass"):
+            return "value-overrides-__class__"
+    if proxied:
+        reads = set()
+        for v in plain:
+            if v["kind"] == "user":
+                reads |= peer_reads(by_name[v["cls"]])
+        if any(n in shadowed_names() for n in reads):
+            return "student-dunder-reads-shadowed-attribute"
+        for v in proxied:
+            if v["kind"] != "user":
+                continue
+            obj = build_value(v, env)
+            for n in reads:
+                a, b = run(getattr, obj, n), run(object.__getattribute__, obj, n)
+                if a[0] != b[0] or (a[0] == "ok" and a[1] is not b[1] and not same_value(a[1], b[1])):
+                    return "student-dunder-reads-dynamic-attribute"
+    for v in plain:
+        if v["kind"] != "user":
+            continue
+        obj = build_value(v, env)
+        for n in vocabulary()["private"]:
+            try:
+                getattr(obj, n)
+            except AttributeError:
+                pass
+            except Exception:       # noqa
+                return "plain-operand-getattr-raises"
+    return None
+
+
 def signature(case):
     fam = case["family"]
+    cause = structural_cause(case)
+    if cause:
+        return {"op": fam, "cause": cause}
     sig = {"op": case["op"]}
     if fam in ("binary", "comparison"):
         sig.update(left=kind_of(case["left"]), right=kind_of(case["right"]), placement=case["placement"])
